@@ -129,6 +129,36 @@ def stem_tables(ctx, clause):
     return obs, rows
 
 
+def class_without_instances_row(ctx, clause):
+    """A requested class that has no instance in the graph (remove_empty_shapes off): its minimal-IRI slot is initialised but
+    never folded; the shexer's annotate_shape_iri must cope with whatever the initial marker is (no stem, no exception)."""
+    p = ctx.p
+    prof = p.find_class("ClassProfiler")
+    init_m = prof.find_method("_init_class_features_dict")
+    ann = p.find_class("AnnotateMinIriStrategy").find_method("annotate_shape_iri")
+    sfd = p.find_class("ShapeExampleFeaturesDict")
+    ev = Evaluator(ctx, max_depth=10)
+    ev.concrete_classes = {"ShapeExampleFeaturesDict"}
+    ev._yields = []
+    status, got = "ok", None
+    try:
+        store = ev.new(sfd, track_inverse_features=False)
+        ev._decisions, ev._taken, ev.effects = [], [], []
+        ev.call(init_m, {}, {"self._shape_feature_examples": store, "self._class_counts": {"S": 0}}, 0)
+        ev._decisions, ev._taken, ev.effects = [], [], []
+        ev.call(ann, {"shape": {"class_uri": "S"}}, {"self._min_iris_dict": store}, 0)
+        got = ev.invoke(store, "shape_min_iri", [], {"shape_id": "S"}, 0)
+    except Raised as r_:
+        status = "raises " + r_.exc
+    except Fork:
+        raise AnalysisError("class-without-instances row not evaluable")
+    ok = status == "ok" and got is None
+    return [Ob(clause, "R-TABLE", "R-TABLE|min-iri-class-without-instances", ann.loc(), ok,
+               "a class without instances ends with no stem and no exception" if ok else
+               "a requested class without instances: annotate_shape_iri %s (stored stem %r) - extraction fails, or prints a stem no "
+               "instance has" % (status, got))]
+
+
 def example_rendering_table(ctx, clause):
     """The example printed for a constraint is the stored value itself: a literal comes out between quotes with its lexical
     form untouched (blanks, tabs and double spaces included), an IRI between corners or prefixed."""
@@ -253,6 +283,7 @@ def check(ctx, tier):
                                                                    [c.flow.param("shexer.shaper:Shaper.__init__", o)],
                                                                    skip_funcs={"shexer.shaper:Shaper.__init__"})[0], ctx, "D-e", default=[])
     obs += ctx.attempt(example_rendering_table, ctx, "D-f", default=[])
+    obs += ctx.attempt(class_without_instances_row, ctx, "D-a", default=[])
     exceptions.apply(obs)
     return {"obs": obs, "floors": [Floor("stem / fold table rows", rows, 20), Floor("example bookkeeping sites", n_ex, 6),
                                    Floor("option control sites", nsites, 15)],
